@@ -24,6 +24,8 @@ pub async fn start_background_compactor(
     segment_ids: Arc<StdRwLock<Vec<String>>>,
     flush_lock: Arc<tokio::sync::Mutex<()>>,
 ) {
+    #[cfg(sneldb_verif)]
+    verif::register(shard_id, shard_dir.clone(), Arc::clone(&segment_ids), Arc::clone(&flush_lock));
     tokio::spawn(async move {
         // Get cached system info (refreshed in background)
         let system_info_cache = get_system_info_cache();
@@ -106,4 +108,55 @@ pub async fn start_background_compactor(
             }
         }
     });
+}
+
+/// Verification hook: run one compaction round for a shard on demand, with the shard's own
+/// live segment list and flush lock (exactly what the background loop does after its sleep
+/// and pressure checks). Compiled only with `--cfg sneldb_verif`.
+#[cfg(sneldb_verif)]
+pub mod verif {
+    use super::*;
+    use std::collections::HashMap;
+    use std::sync::Mutex;
+
+    type Entry = (PathBuf, Arc<StdRwLock<Vec<String>>>, Arc<tokio::sync::Mutex<()>>);
+    static SHARDS: Lazy<Mutex<HashMap<u32, Entry>>> = Lazy::new(|| Mutex::new(HashMap::new()));
+
+    pub fn register(
+        shard_id: u32,
+        shard_dir: PathBuf,
+        segment_ids: Arc<StdRwLock<Vec<String>>>,
+        flush_lock: Arc<tokio::sync::Mutex<()>>,
+    ) {
+        SHARDS.lock().unwrap().insert(shard_id, (shard_dir, segment_ids, flush_lock));
+    }
+
+    /// Returns Ok(number of plans) or the error text of the worker.
+    pub async fn compact_now(shard_id: u32) -> Result<usize, String> {
+        let (shard_dir, segment_ids, flush_lock) = SHARDS
+            .lock()
+            .unwrap()
+            .get(&shard_id)
+            .cloned()
+            .ok_or_else(|| format!("shard {shard_id} not registered"))?;
+        let segment_index = SegmentIndex::load(&shard_dir).await.map_err(|e| e.to_string())?;
+        let policy = KWayCountPolicy::default();
+        let plans = CompactionPolicy::plan(&policy, &segment_index);
+        if plans.is_empty() {
+            return Ok(0);
+        }
+        let n = plans.len();
+        let handover = Arc::new(CompactionHandover::new(
+            shard_id,
+            shard_dir.clone(),
+            segment_ids,
+            flush_lock,
+        ));
+        let registry = Arc::new(tokio::sync::RwLock::new(
+            SchemaRegistry::new().map_err(|e| e.to_string())?,
+        ));
+        let worker = CompactionWorker::new(shard_id, shard_dir, registry, handover);
+        worker.run().await.map_err(|e| e.to_string())?;
+        Ok(n)
+    }
 }
